@@ -7,6 +7,11 @@ from . import c09
 LEVEL = "other"
 
 
+def _fns_in(P, prefixes):
+    """The functions of the given modules (whatever helpers they are split into), tests excluded."""
+    return [b for b in P.user_bodies() if b.get("kind") in ("Fn", "AssocFn") and b["def_path"].startswith(tuple(prefixes)) and "::tests::" not in b["def_path"]]
+
+
 def run(ctx, res):
     P = ctx.lib
     kw = ctx.spec("keywords.json")
@@ -49,8 +54,7 @@ def run(ctx, res):
         res.holds("C18.R1", "-", "no-default-spelling", "%d string literals, none is a default delimiter or tag name" % nlit)
     # R2 integer literals
     nint = 0
-    for name in ("tokenizer::tokenize", "tokenizer::get_state", "tokenizer::check_delimiter_start", "element_parser::parse"):
-        b = P.fn(name)
+    for b in _fns_in(P, ("crate::tokenizer::", "crate::element_parser::")):
         for n in T.nodes(b["tree"]):
             if n.get("k") == "lit" and n.get("lk") == "int":
                 nint += 1
@@ -62,8 +66,7 @@ def run(ctx, res):
     res.floor("C18.R2", "integer literals in tokenizer / tag parser", nint, 8)
     # R3 delimiter parameters as opaque char sequences
     uses = 0
-    for name in ("tokenizer::tokenize", "tokenizer::get_state", "tokenizer::check_delimiter_start"):
-        b = P.fn(name)
+    for b in _fns_in(P, ("crate::tokenizer::",)):
         ids = {p["pat"]["id"]: p["pat"]["name"] for p in b["params"] if p["pat"]["p"] == "bind" and p["pat"]["name"].startswith("delimiter")}
         for n, par in T.walk(b["tree"]):
             if n.get("k") != "path" or T.local_of(n) not in ids:
@@ -133,8 +136,7 @@ def run(ctx, res):
     CLASS_PREDICATES = {"is_ascii", "is_ascii_alphabetic", "is_ascii_alphanumeric", "is_ascii_digit", "is_ascii_lowercase", "is_ascii_uppercase", "is_ascii_punctuation",
                         "is_alphabetic", "is_alphanumeric", "is_numeric", "is_lowercase", "is_uppercase", "is_ascii_graphic", "is_control", "is_ascii_hexdigit"}
     n_cls = 0
-    for name in ("tokenizer::tokenize", "tokenizer::get_state", "tokenizer::check_delimiter_start", "element_parser::parse", "parser::tree"):
-        b_ = P.fn(name)
+    for b_ in _fns_in(P, ("crate::tokenizer::", "crate::element_parser::", "crate::parser::")):
         for n in T.nodes(b_["tree"], "mcall"):
             if n["name"] in CLASS_PREDICATES:
                 n_cls += 1
